@@ -548,7 +548,11 @@ func (e *Env) evalCall(n *SCall) Val {
 		if !ok || e.entryOf == nil {
 			sfail("entry(x): x must be a local variable, in a loop invariant")
 		}
-		v, ok := e.entryOf(id.Name)
+		name := id.Name
+		if a, ok := e.x.alias[name]; ok {
+			name = a
+		}
+		v, ok := e.entryOf(name)
 		if !ok {
 			sfail("entry(%s): not a loop-carried variable of this loop", id.Name)
 		}
